@@ -83,7 +83,7 @@ def conditionals(rng, tier, ops=("mbr", "deduce", "deduce_with", "inverse", "abd
                     out.append(Case("abduce", "q", fam, rng.choice(["spx", "ref", "own"]), [nx, ny], flat_sx(wy) + cn + axp,
                                     tag="q:exact_lattice"))
                 if "abduce_with" in ops:
-                    out.append(Case("abduce_with", "q", fam, rng.choice(["spx", "ref"]), [nx, ny], flat_sx(wy) + cn + axp + ayp,
+                    out.append(Case("abduce_with", "q", fam, rng.choice(["spx", "ref", "own"]), [nx, ny], flat_sx(wy) + cn + axp + ayp,
                                     tag="q:exact_lattice"))
     return out
 
